@@ -1,4 +1,7 @@
-(* C11 model driver.  One case per stdin line, tokens separated by blanks:
+(* C11 model driver.  One case per stdin line, tokens separated by blanks.
+   After the command letter an optional token fx=<b1><b2><b3><b4><b5> (0/1 each) says which of the repairs K1..K5
+   are present in the tree (Model/SwitchFixed.v); default 00000 = the faithful model of Model/Switch.v.
+
 
    D <m>*                         discriminant assignment; <m> = '-' | number
      -> "OK d1 d2 .. ; dups i j .." | "CRASH<n>" | "FUEL"
@@ -17,6 +20,7 @@
 open Conv
 open Switch
 open SwitchSpec
+open SwitchFixed
 
 let n = n_of_int
 let repr_of_char = function
@@ -71,14 +75,28 @@ let show_class = function
 
 let parse_m s = if s = "-" then None else Some (n (int_of_string s))
 
+let parse_fx (s : string) : fixes =
+  let b i = String.length s > i && s.[i] = '1' in
+  { fx1 = b 0; fx2 = b 1; fx3 = b 2; fx4 = b 3; fx5 = b 4 }
+
+(* splits an optional leading fx=.. token off *)
+let take_fx toks =
+  match toks with
+  | t :: r when String.length t >= 3 && String.sub t 0 3 = "fx=" ->
+    (parse_fx (String.sub t 3 (String.length t - 3)), r)
+  | _ -> (parse_fx "", toks)
+
 let cmd_d toks =
+  let (fx, toks) = take_fx toks in
   let ms = List.map parse_m toks in
-  show_res (fun ds ->
+  show_res (fun (ds, big) ->
       "OK " ^ String.concat " " (List.map (fun d -> string_of_int (int_of_n d)) ds)
-      ^ " ; dups " ^ String.concat " " (List.map (fun i -> string_of_int (int_of_nat i)) (dup_manuals [] O ms)))
-    (assign_discriminants ms)
+      ^ " ; dups " ^ String.concat " " (List.map (fun i -> string_of_int (int_of_nat i)) (dup_manuals [] O ms))
+      ^ " ; big " ^ String.concat " " (List.map (fun i -> string_of_int (int_of_nat i)) big))
+    (assign_discriminants_fx fx ms)
 
 let cmd_s toks =
+  let (fx, toks) = take_fx toks in
   let rest = ref toks in
   let adv () = match !rest with [] -> failwith "eof" | t :: r -> rest := r; t in
   let k = int_of_string (adv ()) in
@@ -87,6 +105,7 @@ let cmd_s toks =
       let u = n (int_of_string (String.sub t 1 (String.length t - 1))) in
       if t.[0] = 'd' then WDistinct u else WVariant u) in
   let discr_out = ref "-" in
+  let big_out = ref 0 in
   let shape =
     match adv () with
     | "E" ->
@@ -96,8 +115,9 @@ let cmd_s toks =
           let nm = adv () in let u = adv () in let sub = adv () in let nl = adv () in
           let r = adv () in let m = adv () in (nm, u, sub, nl, r, m)) in
       let ms = List.map (fun (_, _, _, _, _, m) -> parse_m m) raw in
-      (match assign_discriminants ms with
-       | Util.Ok ds ->
+      (match assign_discriminants_fx fx ms with
+       | Util.Ok (ds, big) ->
+         big_out := List.length big;
          discr_out := String.concat "," (List.map (fun d -> string_of_int (int_of_n d)) ds);
          SEnum (uid, List.map2 (fun (nm, u, sub, nl, r, _) d ->
              { v_euid = uid; v_name = n (int_of_string nm); v_uid = n (int_of_string u);
@@ -125,16 +145,16 @@ let cmd_s toks =
   let with_arg = adv () = "1" in
   let s = { s_wraps = wraps; s_shape = shape } in
   let nv = List.length (variants_of shape) in
-  let check = show_res (fun ds -> "OK:" ^ String.concat "," (List.map show_diag ds)) (check_switch s arms dflt) in
+  let check = show_res (fun ds -> "OK:" ^ String.concat "," (List.map show_diag ds)) (check_switch_fx fx s arms dflt) in
   let spec = if accepted_specb shape arms dflt then "1" else "0" in
-  let comp = show_res (fun _ -> "OK") (compile_switch shape arms dflt with_arg) in
+  let comp = show_res (fun _ -> "OK") (compile_switch_fx fx shape arms dflt with_arg) in
   let js = List.init nv (fun j -> nat_of_int j) in
-  let disp = String.concat "," (List.map (fun j -> show_res show_outcome (dispatch shape arms dflt with_arg j)) js) in
+  let disp = String.concat "," (List.map (fun j -> show_res show_outcome (dispatch_fx fx shape arms dflt with_arg j)) js) in
   let sdisp = String.concat "," (List.map (fun j -> show_outcome (spec_outcome shape arms with_arg j)) js) in
-  Printf.sprintf "check=%s spec=%s kcheck=%s comp=%s kgen=%s n=%d disp=%s sdisp=%s discr=%s"
-    check spec (show_class (known_check_class s arms)) comp
-    (show_class (known_codegen_class shape arms dflt with_arg)) nv
-    (if disp = "" then "-" else disp) (if sdisp = "" then "-" else sdisp) !discr_out
+  Printf.sprintf "check=%s spec=%s kcheck=%s comp=%s kgen=%s n=%d disp=%s sdisp=%s discr=%s big=%d"
+    check spec (show_class (known_check_class_fx fx s arms)) comp
+    (show_class (known_codegen_class_fx fx shape arms dflt with_arg)) nv
+    (if disp = "" then "-" else disp) (if sdisp = "" then "-" else sdisp) !discr_out !big_out
 
 let () =
   iter_lines (fun line ->
